@@ -345,7 +345,7 @@ def call_stat(case, op, func=None, boots=None, adj=None):
     if case.get('bootform') == 'ndarray':
         boots = [np.array(np.asarray(b.data)) for b in boots]          # plain arrays: Godambe wraps each bootstrap in a Spectrum
     p0, data, pts, eps, mn = list(case['p0']), case['data'], case['pts'], case['eps'], case['multinom']
-    nested = np.array(case['nested']) if case.get('nestform') == 'array' else list(case['nested'])
+    nested = {'array': np.array, 'tuple': tuple}.get(case.get('nestform'), list)(case['nested'])
     full = list(case['full'])
     if case.get('fullform') == 'entire':        # "entire list of parameters from complex model"
         full = list(p0)
@@ -527,6 +527,62 @@ MASK_CONFIGS = [      # data / bootstraps with entries masked beyond the corners
     {'name': 'k2-folded-odd-masked', 'k': 2, 'multinom': False, 'nb': 7, 'eps': 2.0 ** -7, 'adj': True, 'nested': [0], 'n': (13, 13), 'folded': True,
      'dmask': 1, 'bmask': 1, 'ops': ('fim', 'gim', 'lrt')},
 ]
+
+
+# ---- listing order of the nested parameters (deterministic block, every tier, generator random.Random(ctx.seed + 1906)):
+# LRT_adjust / Wald_stat / score_stat with nested_indices in every listing order (ascending, descending, a rotation) for two and
+# three nested parameters, as list / tuple / ndarray, Wald's full_params as the nested values (listed in the SAME order as
+# nested_indices) and as the entire parameter list.  Every call is judged against the closed form for its own listing
+# (Trace_Godambe!CF takes the sub-matrices in the order listed and pairs full[a] with parameter nested[a]).
+# (Never ALL parameters nested here: full_params of the length of p0 is read by Wald_stat as the entire parameter list in the
+# order of p0 - the documented second form - so a short form cannot be told from it when every parameter is nested.)
+ORDER_CONFIGS = [
+    {'name': 'k3-two-nested', 'k': 3, 'multinom': False, 'nb': 7, 'eps': 2.0 ** -7, 'adj': False, 'nested': [0, 2], 'fixed': False,
+     'orders': ([0, 2], [2, 0])},
+    {'name': 'k4-three-nested', 'k': 4, 'multinom': False, 'nb': 8, 'eps': 2.0 ** -8, 'adj': False, 'nested': [0, 1, 3], 'fixed': True,
+     'n': (8, 10), 'orders': ([0, 1, 3], [3, 1, 0], [1, 3, 0])},
+    {'name': 'k3-theta-augmented-two-nested', 'k': 3, 'multinom': True, 'nb': 7, 'eps': 2.0 ** -8, 'nested': [1, 2], 'n': (8, 10),
+     'orders': ([1, 2], [2, 1])},
+]
+ORDER_OPS = ('lrt', 'wald', 'score')
+NEST_FORMS = ('list', 'tuple', 'array')
+
+
+def order_cases(rng, ncand):
+    """per configuration and candidate: the same case once per listing order (full_params listed consistently)"""
+    out = []
+    for cfg in ORDER_CONFIGS:
+        for _ in range(ncand):
+            base = gen_stats_case(rng, cfg=cfg)
+            value = dict(zip(base['nested'], base['full']))
+            for order in cfg['orders']:
+                c = dict(base)
+                c.update({'nested': list(order), 'full': [value[a] for a in order], 'screen_ops': list(ORDER_OPS)})
+                out.append(c)
+    return out
+
+
+def order_records(nid, cases, ok, ncand, tag='@nested-order'):
+    recs, missing = [], []
+    pos = 0
+    for cfg in ORDER_CONFIGS:
+        no = len(cfg['orders'])
+        for op in ORDER_OPS:
+            # the first candidate TLC's screening can decide in every listing order
+            cands = [c for c in range(ncand) if all(op in ok[pos + c * no + oi] for oi in range(no))]
+            if not cands:
+                missing.append('%s/%s' % (cfg['name'], op))
+                continue
+            for oi in range(no):
+                base = cases[pos + cands[0] * no + oi]
+                variants = [('nested', f) for f in NEST_FORMS] + [('entire', NEST_FORMS[oi % 3])] if op == 'wald' else \
+                           [('nested', NEST_FORMS[(oi + (1 if op == 'score' else 0)) % 3])]
+                for fullform, nestform in variants:
+                    case = dict(base)
+                    case.update({'fullform': fullform, 'nestform': nestform})
+                    recs.append({'id': '%s-%d' % (op, next(nid)), 'op': op, 'site': SITE[op] + tag, 'in': stats_in(case, op), 'out': call_stat(case, op)})
+        pos += ncand * no
+    return recs, missing
 
 
 def named_cases(rng, configs, ncand):
@@ -1044,7 +1100,13 @@ def what_of(rec, clause):
     if rec['op'] == 'chi2':
         return 'sum_chi2_ppf(%s input, weights %s): clause %s violated, observed %s (record %s)' % (
             rec['in']['input'], [float(Fraction(w)) for w in rec['in']['w']], clause, rec['out'].get('raised', rec['out'].get('kind')), rec['id'])
-    return 'record %s (%s): clause %s violated' % (rec['id'], rec.get('site', rec['op']), clause)
+    txt = 'record %s (%s): clause %s violated' % (rec['id'], rec.get('site', rec['op']), clause)
+    if rec['op'] in ('lrt', 'wald', 'score') and 'forms' in rec['in']:
+        f = rec['in']['forms']
+        txt += '; nested_indices=%s (0-based, as %s)%s' % ([a - 1 for a in rec['in']['nested']], f[2],
+                                                          (', full_params = %s' % ('the nested values in the same order' if f[0] == 'nested' else 'entire parameter list'))
+                                                          if rec['op'] == 'wald' else '')
+    return txt
 
 
 def records(ctx):
@@ -1067,7 +1129,9 @@ def records(ctx):
     # (with the theta augmentation the first-order bounds rarely decide GIM for two parameters: one-parameter setups follow)
     seq_sus = [seq_setup(r2, k) for k in ((2, 1, 1) if ctx.quick else (2, 1, 2, 1, 1))]
     seq_sc = [seq_screen_cases(su, words) for su in seq_sus]
-    groups = [det + rnd, flat, tie_cases, mask_cases] + seq_sc
+    ocand = 3 if ctx.quick else 6
+    ord_cases = order_cases(random.Random(ctx.seed + 1906), ocand)
+    groups = [det + rnd, flat, tie_cases, mask_cases] + seq_sc + [ord_cases]
     ok = screen([c for g in groups for c in g])        # one TLC pass decides which closed-form comparisons are decidable
     oks, pos = [], 0
     for g in groups:
@@ -1091,6 +1155,10 @@ def records(ctx):
     if 2 * len(s_dropped) > len(words):
         raise common.MachineryError('C19 call sequences: no candidate setup is decidable for more than half of the words')
     recs += s_recs
+    o_recs, o_missing = order_records(nid, ord_cases, oks[4 + len(seq_sus)], ocand)
+    recs += o_recs
+    extra.update({'nested_order_configurations': [c['name'] for c in ORDER_CONFIGS],
+                  'nested_order_configurations_without_decidable_case': o_missing})
     extra.update({'threshold_and_masked_configurations': [c['name'] for c in TIE_CONFIGS + MASK_CONFIGS],
                   'threshold_and_masked_configurations_without_decidable_case': t_missing + m_missing,
                   'call_sequence_words': [w[0] for w in words], 'call_sequence_words_dropped_undecidable': s_dropped})
@@ -1138,7 +1206,9 @@ def run(ctx):
              'unfolded model function, multinom False and True; call sequences on ONE model function object (base / one argument changed / '
              'base, for each of grid_pts, p0, ns, data, multinom, log, eps and each of FIM_uncert, GIM_uncert, get_godambe; walks changing '
              'one argument per call; a word mixed with LRT_adjust), every call judged against the closed form of its own arguments and '
-             'against the same call on an empty cache.  Plus random cases of each kind (more in thorough); distinct by the tuples of nontrivial()',
+             'against the same call on an empty cache; LRT_adjust / Wald_stat / score_stat with nested_indices in every listing order '
+             '(ascending, descending, rotated) for two and three nested parameters, as list / tuple / ndarray, Wald full_params as nested '
+             'values in the same order and as entire list (sites "...@nested-order").  Plus random cases of each kind (more in thorough); distinct by the tuples of nontrivial()',
         assumptions=['stencil records: |observed - stencil(exact f)| <= 1e-13 * |f|_terms / (h_i h_j)  (float evaluation of f at the stencil points)',
                      'closed-form records: parameters positive and central differences (p*eps >= 1e-6); truncation bound '
                      '2 eps^2/(1-eps)^4 * (positive part of the information), eps^2/(3(1-eps)^3) * (positive part of the score), plus '
@@ -1149,6 +1219,8 @@ def run(ctx):
                      'a parameter whose exact product p*eps lies within 1e-15 (relative) of 1e-6 is on the threshold of the step rule as far as '
                      'double precision can tell: get_hess / get_grad may use either stencil there (one choice per parameter, points and divisor '
                      'of the same stencil); the closed-form records demand the O(eps^2) agreement of the statement there as everywhere',
+                     'nested_indices is documented as a list of positions; given as a TUPLE numpy reads it as a multi-dimensional index and '
+                     'dadi refuses (IndexError): a refusal is accepted for tuples, a returned value must be the closed form',
                      'folded spectra: one population, minor-allele folding (entry i and n-i summed into the lower one)',
                      'chi-square cdf table from a stdlib power series of the incomplete gamma function, tolerance 1e-10',
                      'bootstrap order: outputs of the two orders agree to 1e-8 of the largest output (summation round-off only)'])
